@@ -34,7 +34,7 @@ def plan(tier, seed):
                                'params': {'g': g, 'parser': 'earley', 'lexer': lexer, 'L': Lt, 'asserts': ['member', 'errpos'], 'pin': pin, 'mode': 'realised'},
                                'timeout': int(est * 2.5 + 40), 'twin': pin in (None, k - 1), 'bound': {'chars': Lt, 'classes': k}})
     # text level, basic/contextual lexers: class, offset and line/column of the first offending token or character
-    for g, k in {'lines': 8, 'nlvia': 8, 'meta1': 7, 'kwfold': 7}.items():
+    for g, k in {'lines': 8, 'nlvia': 8, 'meta1': 7, 'kwfold': 7, 'unusedterm': 4}.items():
         for parser, lexer in (('lalr', 'contextual'), ('lalr', 'basic'), ('earley', 'basic')):
             Lt = 3 if quick else 5
             npaths = sum(k ** n for n in range(Lt + 1))
